@@ -30,7 +30,8 @@ def randTree : Nat → Nat → OTree × Nat
 
 def boOf (s : String) : BO := if s = "X" then .xdr else .ndr
 
-def geomOfToks (t : Tok) : Option (BGeom × Tok) := Proto.pGeom 64 t
+/-- parse budget = collection nesting depth accepted on a line (the generator goes to depth 1000) -/
+def geomOfToks (t : Tok) : Option (BGeom × Tok) := Proto.pGeom 2048 t
 
 def showRes : Except Err BGeom → String
   | .ok g => "ok " ++ Proto.geomStr g
